@@ -52,6 +52,29 @@ def known_status():
     return st
 
 
+_bd = None
+
+
+def build():
+    """Build only this check's binary (with the real backends)."""
+    global _bd
+    if _bd is None:
+        lock = os.path.join(vp.HARNESS, "Cargo.lock")
+        if not os.path.exists(lock):
+            shutil.copy("/repo/Cargo.lock", lock)
+        cmd = ["cargo", "build", "--offline", "--bin", "kv_replay", "--features", "backends"]
+        t0 = time.time()
+        p = vp.run(cmd, cwd=vp.HARNESS, timeout=3600, check=False)
+        if p.returncode != 0 and "yanked" in (p.stdout or ""):
+            shutil.copy("/repo/Cargo.lock", lock)
+            p = vp.run(cmd, cwd=vp.HARNESS, timeout=3600, check=False)
+        if p.returncode != 0:
+            raise vp.ToolError("harness build failed:\n" + (p.stdout or "")[-6000:])
+        vp.log(f"[build] kv_replay (features=backends) {time.time() - t0:.1f}s")
+        _bd = vp.bindir()
+    return _bd
+
+
 def kv_replay(bd, *args, timeout=3000):
     p = vp.run([os.path.join(bd, "kv_replay")] + [str(a) for a in args], timeout=timeout)
     return p.stdout or ""
@@ -253,7 +276,7 @@ def new_stats():
 def run(tier, seed):
     t0 = time.time()
     quick = tier != "thorough"
-    bd = vp.build(features="backends")
+    bd = build()
     wd = vp.clean_workdir(PID)
     tmp = tempfile.mkdtemp(prefix="vh-c11-run-", dir="/tmp")
     verdict = vp.Verdict(PID)
@@ -327,7 +350,7 @@ def run(tier, seed):
 
 def replay(path):
     rp = json.load(open(path))
-    bd = vp.build(features="backends")
+    bd = build()
     wd = vp.workdir(PID, "replay")
     tmp = tempfile.mkdtemp(prefix="vh-c11-run-", dir="/tmp")
     verdict = vp.Verdict(PID)
@@ -416,7 +439,7 @@ WITNESSES = [
 
 
 def selftest(seed):
-    bd = vp.build(features="backends")
+    bd = build()
     wd = vp.workdir(PID, "selftest")
     tmp = tempfile.mkdtemp(prefix="vh-c11-run-", dir="/tmp")
     ok = True
